@@ -16,10 +16,10 @@ from harness.props.c02 import arr_str
 ID = 'C08'
 MODULE = 'EmsModel.Props.C08'
 DRIVER = 'C08'
-REQUIRED = []
-REQUIRED_LATER = ['Ems.C08.crop_get', 'Ems.C08.where_get', 'Ems.C08.grid_clip_spec', 'Ems.C08.fill_decision_table',
+REQUIRED = ['Ems.C08.crop_get', 'Ems.C08.where_get', 'Ems.C08.grid_clip_spec', 'Ems.C08.fill_decision_table',
             'Ems.C08.unmaskable_never_altered', 'Ems.C08.selectRows_get', 'Ems.C08.governing_first',
-            'Ems.C08.empty_mask_refused', 'Ems.C08.trueBounds_spec']
+            'Ems.C08.empty_mask_refused', 'Ems.C08.trueBounds_spec', 'Ems.C08.nothing_outside_survives',
+            'Ems.C08.keptRows_spec', 'Ems.C08.meshRows_passthrough']
 RULE = ('datasets of every convention (coordinates as xarray coordinates or plain variables; meshes with every subset of '
         'the optional connectivity tables, 0/1-based, NaN / _FillValue / no fill) with tagged variables: float, int '
         'without fill, int with _FillValue / missing_value, on faces / edges / nodes / no grid, dimensions in random '
@@ -220,7 +220,7 @@ def examine(ctx, recipe, items) -> None:
 
 def run(ctx) -> None:
     items: list = []
-    for k in range(ctx.budget(30, 300)):
+    for k in range(ctx.budget(70, 500)):
         recipe = make_recipe(ctx, k)
         ctx.guarded(lambda: examine(ctx, recipe, items), {'recipe': recipe})
     if ctx.searching and ctx.driver is None:
